@@ -7,16 +7,18 @@ records outcomes plus untrusted witnesses; spec/trace/BigIntTrace.tla judges eve
 """
 import copy
 import json
+import os
 import random
+from concurrent.futures import ThreadPoolExecutor
 
 from .. import core, tlc
 
 LEVEL = "exploration"
 
-# samples per operation beyond the `must` jobs: (quick, thorough)
-HEAVY = {"powm": (30, 420), "monty_pow": (14, 200), "sqrtm": (24, 325), "jacobi_symbol": (24, 400), "inverse": (24, 400), "mult_modulo_bytes": (16, 300),
-         "monty_multiply": (12, 200), "pow": (16, 405), "multiply_accumulate": (16, 400)}
-DEFAULT = (14, 300)
+# samples per operation beyond the `must` jobs in the quick tier; the thorough tier runs every enumerated job once
+HEAVY = {"powm": 60, "monty_pow": 24, "sqrtm": 40, "jacobi_symbol": 40, "inverse": 40, "mult_modulo_bytes": 30, "monty_multiply": 20, "pow": 30,
+         "multiply_accumulate": 30}
+DEFAULT = 36
 OPLABEL = {"rshift": ">>", "lshift": "<<", "powm": "pow", "pow": "pow without modulus", "sqrtm": "sqrt modulo a prime", "mult_modulo_bytes": "_mult_modulo_bytes",
            "floordiv": "//", "mod": "%", "add": "+", "sub": "-", "mul": "*", "and": "&", "or": "|"}
 
@@ -86,8 +88,7 @@ def select_jobs(ctx, jobs, quick, rnd):
         must = [j for j in js if j["must"]]
         rest = [j for j in js if not j["must"]]
         rnd.shuffle(rest)
-        n = HEAVY.get(op, DEFAULT)[0 if quick else 1]
-        sel += must + rest[:n]
+        sel += must + (rest[:HEAVY.get(op, DEFAULT)] if quick else rest)
     for k, j in enumerate(sel):
         j["k"] = k
     return sel
@@ -103,66 +104,104 @@ def run(ctx):
     if len(jobs) < 30000:
         raise core.Machinery("Backends emitted only %d integer jobs" % len(jobs))
     sel = select_jobs(ctx, jobs, quick, rnd)
-    # 2. record: three back-ends x variants; primality jobs are built by the recorder from its tables (seeded)
-    traces = ctx.drive("c14_bigint", inp={"int": sel, "prime": "all"}, timeout=3000)
-    traces.sort(key=est_cost, reverse=True)
-    # 3. judge
-    verdicts = ctx.validate("BigIntTrace", traces, family="bigint", timeout=2400)
+    # 2./3. record (three back-ends x variants; the primality jobs are built by the recorder from its tables, seeded) and judge, batch by batch
+    #       so that neither this process nor the TLC JVMs hold more than a few thousand records (JVM heaps are bounded below)
+    os.environ["JAVA_TOOL_OPTIONS"] = "-Xmx3g"
+    ctx.lib
     silent = {}
     per_op = {}
-    n_obs = 0
     seen_viol = {}
-    for t in traces:
-        pos, clause = verdicts[t["tid"]]
-        n_obs += len(t["obs"])
-        ctx.count(len(t["obs"]))
-        per_op[t["op"]] = per_op.get(t["op"], 0) + 1
-        if "harness:" in clause:
-            raise core.Machinery("recorder/witness problem in %s %s: %s" % (t["op"], t.get("sh", t.get("cls")), clause))
-        if clause.startswith("silent:"):
-            silent[clause] = silent.get(clause, 0) + 1
-            if t["op"] == "sqrtm" and any(x in core_primes() for x in t["sh"][1:2]):
-                raise core.Machinery("the specification did not recognise table prime %s" % t["sh"][1])
-            continue
-        if t["fam"] == "int":
-            ctx.nontriv([t["op"], t["a"], t["b"], t["c"], t["by"], t["bo"]])
-        else:
-            ctx.nontriv([t["op"], t["cand"], t["iters"], t["bits"]])
-        if clause == "ok":
-            continue
-        for who, cl in split_verdict(clause):
-            key = key_of(t, who, cl)
-            if key in seen_viol:
-                seen_viol[key] += 1
+    counts = {"obs": 0, "prime": 0}
+    # accepted records kept for the samples and the binding self-checks: name -> (predicate, cheapest record seen)
+    want = {
+        "mul": lambda x: x["op"] == "mul" and len(x["obs"][0]["v"]["m"]) > 20 and x["obs"][0]["v"]["m"][0] > 1,
+        "mod0": lambda x: x["op"] == "mod" and val(x["b"]) == 0,
+        "modbig": lambda x: x["op"] == "mod" and val(x["b"]) > 2 ** 40 and abs(val(x["a"])) > val(x["b"]) and x["w"]["r"]["m"] and x["w"]["r"]["m"][0] > 1,
+        "tpp": lambda x: x["op"] == "test_probable_prime" and x["truth"] == "prime",
+        "mr": lambda x: x["op"] == "miller_rabin_test" and x["truth"] == "composite" and x["certs"],
+        "powm": lambda x: x["op"] == "powm" and len(x["w"].get("chain", [])) > 10 and len(x["obs"][0]["v"]["m"]) > 3 and x["obs"][0]["v"]["m"][0] > 1,
+        "to_bytes": lambda x: x["op"] == "to_bytes" and len(x["obs"][0]["by"]) > 8,
+        "gen": lambda x: x["op"] == "generate_probable_prime" and x["bits"] >= 160,
+        "inverse": lambda x: x["op"] == "inverse" and len(x["a"]["m"]) > 5 and x["w"].get("inv") == 1,
+        "sqrtm": lambda x: x["op"] == "sqrtm" and len(x["b"]["m"]) > 5 and x["w"].get("res") == 1,
+    }
+    kept = {}
+
+    def judge(traces):
+        traces.sort(key=est_cost, reverse=True)
+        verdicts = ctx.validate("BigIntTrace", traces, family="bigint", timeout=2400)
+        for t in traces:
+            pos, clause = verdicts[t["tid"]]
+            counts["obs"] += len(t["obs"])
+            counts["prime"] += t["fam"] == "prime"
+            ctx.count(len(t["obs"]))
+            per_op[t["op"]] = per_op.get(t["op"], 0) + 1
+            if "harness:" in clause:
+                raise core.Machinery("recorder/witness problem in %s %s: %s" % (t["op"], t.get("sh", t.get("cls")), clause))
+            if clause.startswith("silent:"):
+                silent[clause] = silent.get(clause, 0) + 1
+                if t["op"] == "sqrtm" and any(x in core_primes() for x in t["sh"][1:2]):
+                    raise core.Machinery("the specification did not recognise table prime %s" % t["sh"][1])
                 continue
-            seen_viol[key] = 1
             if t["fam"] == "int":
-                detail = {"backend_and_variant": who, "op": t["op"], "shapes": t["sh"], "a": str(val(t["a"])), "b": str(val(t["b"])), "c": str(val(t["c"])),
-                          "observed": [dict(who=o["who"], type=o["tn"], exc=o["ex"], value=str(val(o["v"]))) for o in t["obs"] if o["who"] == who][:1],
-                          "clause": cl}
+                ctx.nontriv([t["op"], t["a"], t["b"], t["c"], t["by"], t["bo"]])
             else:
-                detail = {"backend_and_variant": who, "op": t["op"], "class": t["cls"], "truth": t["truth"], "candidate_limbs": t["cand"][:40], "clause": cl}
-            ctx.violation(key, detail, replay=t)
+                ctx.nontriv([t["op"], t["cand"], t["iters"], t["bits"]])
+            if clause == "ok":
+                for name, pred in want.items():
+                    if pred(t) and (name not in kept or est_cost(t) < est_cost(kept[name])):
+                        kept[name] = t
+                continue
+            for who, cl in split_verdict(clause):
+                key = key_of(t, who, cl)
+                if key in seen_viol:
+                    seen_viol[key] += 1
+                    continue
+                seen_viol[key] = 1
+                if t["fam"] == "int":
+                    detail = {"backend_and_variant": who, "op": t["op"], "shapes": t["sh"], "a": str(val(t["a"])), "b": str(val(t["b"])), "c": str(val(t["c"])),
+                              "observed": [dict(who=o["who"], type=o["tn"], exc=o["ex"], value=str(val(o["v"]))) for o in t["obs"] if o["who"] == who][:1],
+                              "clause": cl}
+                else:
+                    detail = {"backend_and_variant": who, "op": t["op"], "class": t["cls"], "truth": t["truth"], "candidate_limbs": t["cand"][:40], "clause": cl}
+                ctx.violation(key, detail, replay=t)
+
+    rnd.shuffle(sel)                      # every batch is a mix of cheap and expensive operations
+    batch = 6000
+    tid = 0
+    for b0 in range(0, len(sel), batch):
+        part = sel[b0:b0 + batch]
+        chunks = [part[i:i + 750] for i in range(0, len(part), 750)]
+        with ThreadPoolExecutor(max_workers=8) as ex:
+            outs = list(ex.map(lambda ch: ctx.drive("c14_bigint", inp={"int": ch[1], "prime": "all" if (b0 == 0 and ch[0] == 0) else []}, timeout=3000),
+                               enumerate(chunks)))
+        traces = [t for o in outs for t in o]
+        for t in traces:
+            tid += 1
+            t["tid"] = tid
+        judge(traces)
+        del traces, outs
     ctx.extra["violating_cases_per_key"] = seen_viol
     ctx.extra["records_per_operation"] = per_op
     ctx.extra["outside_documented_domain"] = silent
-    ctx.extra["library_calls_judged"] = n_obs
-    ok = [t for t in traces if verdicts[t["tid"]][1] == "ok"]
-    for op in ("mul", "powm", "inverse", "sqrtm", "to_bytes", "miller_rabin_test", "test_probable_prime", "generate_probable_prime"):
-        t = next((x for x in ok if x["op"] == op and (x["fam"] == "prime" or len(x["a"]["m"]) > 5)), None)
+    ctx.extra["library_calls_judged"] = counts["obs"]
+    ctx.extra["integer_jobs_enumerated_by_the_model"] = len(jobs)
+    ctx.extra["integer_jobs_run"] = len(sel)
+    ctx.extra["every_enumerated_shape_class_tuple_run"] = len(sel) == len(jobs)
+    for name in ("mul", "powm", "inverse", "sqrtm", "to_bytes", "mr", "tpp", "gen"):
+        t = kept.get(name)
         if t is not None:
             if t["fam"] == "int":
-                ctx.sample({"op": op, "shapes": t["sh"], "bits": [len(t[f]["m"]) * 12 for f in "abc"], "observations": len(t["obs"]),
+                ctx.sample({"op": t["op"], "shapes": t["sh"], "bits": [len(t[f]["m"]) * 12 for f in "abc"], "observations": len(t["obs"]),
                             "first": {k: (t["obs"][0][k] if k != "v" else str(val(t["obs"][0]["v"]))[:60]) for k in ("who", "tn", "ex", "v")}, "tlc_verdict": "ok"})
             else:
-                ctx.sample({"op": op, "class": t["cls"], "truth": t["truth"], "bits": len(t["cand"]) * 12, "observations": len(t["obs"]),
+                ctx.sample({"op": t["op"], "class": t["cls"], "truth": t["truth"], "bits": len(t["cand"]) * 12, "observations": len(t["obs"]),
                             "certified_rounds": len(t["certs"]), "tlc_verdict": "ok"})
     # 4. binding self-checks: falsified observations must be rejected, a consistent lie must not pass
-    def first(pred):
-        t = next((x for x in ok if pred(x)), None)
-        if t is None:
-            raise core.Machinery("no accepted trace for a binding self-check")
-        return copy.deepcopy(t)
+    def first(name):
+        if name not in kept:
+            raise core.Machinery("no accepted trace for the binding self-check %r" % name)
+        return copy.deepcopy(kept[name])
 
     def flip_limb(t):
         t["obs"][0]["v"]["m"][0] ^= 1
@@ -182,25 +221,21 @@ def run(ctx):
         t["obs"][0]["r"] = 1 - t["obs"][0]["r"]
         return t
 
-    ctx.binding_selfcheck("BigIntTrace", first(lambda x: x["op"] == "mul" and len(x["obs"][0]["v"]["m"]) > 20), flip_limb, "bigint: one limb of a product")
-    ctx.binding_selfcheck("BigIntTrace", first(lambda x: x["op"] == "mod" and val(x["b"]) == 0), returns_value, "bigint: value instead of ZeroDivisionError")
-    ctx.binding_selfcheck("BigIntTrace", first(lambda x: x["op"] == "mod" and val(x["b"]) > 2 ** 40 and abs(val(x["a"])) > val(x["b"]) and x["w"]["r"]["m"]),
-                          consistent_lie, "bigint: remainder and witness falsified together")
-    ctx.binding_selfcheck("BigIntTrace", first(lambda x: x["op"] == "test_probable_prime" and x["truth"] == "prime"), flip_verdict, "primality: prime declared composite")
-    ctx.binding_selfcheck("BigIntTrace", first(lambda x: x["op"] == "miller_rabin_test" and x["truth"] == "composite" and x["certs"]), flip_verdict,
-                          "primality: certified Miller-Rabin round contradicted")
+    ctx.binding_selfcheck("BigIntTrace", first("mul"), flip_limb, "bigint: one limb of a product")
+    ctx.binding_selfcheck("BigIntTrace", first("mod0"), returns_value, "bigint: value instead of ZeroDivisionError")
+    ctx.binding_selfcheck("BigIntTrace", first("modbig"), consistent_lie, "bigint: remainder and witness falsified together")
+    ctx.binding_selfcheck("BigIntTrace", first("tpp"), flip_verdict, "primality: prime declared composite")
+    ctx.binding_selfcheck("BigIntTrace", first("mr"), flip_verdict, "primality: certified Miller-Rabin round contradicted")
     if not quick:
-        ctx.binding_selfcheck("BigIntTrace", first(lambda x: x["op"] == "powm" and len(x["w"].get("chain", [])) > 10), flip_limb, "bigint: one limb of a modular power")
-        ctx.binding_selfcheck("BigIntTrace", first(lambda x: x["op"] == "to_bytes" and len(x["obs"][0]["by"]) > 8),
-                              lambda t: (t["obs"][0]["by"].__setitem__(3, t["obs"][0]["by"][3] ^ 1), t)[1], "bigint: one byte of to_bytes")
-        ctx.binding_selfcheck("BigIntTrace", first(lambda x: x["op"] == "generate_probable_prime" and x["bits"] >= 160),
-                              lambda t: (t["obs"][0]["v"].append(1), t)[1], "primality: generated prime one limb too long")
+        ctx.binding_selfcheck("BigIntTrace", first("powm"), flip_limb, "bigint: one limb of a modular power")
+        ctx.binding_selfcheck("BigIntTrace", first("to_bytes"), lambda t: (t["obs"][0]["by"].__setitem__(3, t["obs"][0]["by"][3] ^ 1), t)[1], "bigint: one byte of to_bytes")
+        ctx.binding_selfcheck("BigIntTrace", first("gen"), lambda t: (t["obs"][0]["v"].append(1), t)[1], "primality: generated prime one limb too long")
     ctx.rule = ("operation x operand-shape classes enumerated by TLC from sys/Backends (sign x {0, 1, 2, 5 bits, 4095/4096, 65534..65537, 31/32/33, 63/64/65 bits, "
                 "2^32, 2^63, 2^(64k)+-1 for k = 1, 2, 4, all-ones 192/1024/2048 bits, random 127/521/1024/2048 bits%s}, moduli zero/one/negative/even/odd/2^64, "
                 "shift counts around limb and word boundaries up to 65536); every job marked `must` (degenerate operands, precondition violations) plus a seeded "
                 "sample per operation, each run on 3 back-ends x (int | Integer operand) x (in place | not); one evaluation = one library call judged by TLC; "
                 "distinct = distinct (operation, operands) inside the documented domain; primality: %d jobs from the recorder's tables (table primes, Carmichael, "
-                "strong/Lucas pseudoprimes, squares, close primes, generation sizes)" % ("" if quick else ", 3072/4096 bits", sum(1 for t in traces if t["fam"] == "prime")))
+                "strong/Lucas pseudoprimes, squares, close primes, generation sizes)" % ("" if quick else ", 3072/4096 bits", counts["prime"]))
     ctx.assume("TLC is used as reference evaluator (exploration, not state-space search): spec/data/BigNat.tla and BigInt.tla are right; they are pinned by "
                "ASSUMEd identities, by products computed with Python integers and by exhaustive comparison with TLC's own integers on a window")
     ctx.assume("witnesses (quotients, Bezout cofactors, square-and-multiply links, Jacobi reduction quotients) come from Python integers and are untrusted: "
